@@ -883,13 +883,14 @@ pub fn exec(c: &mut Case, w: &mut World, op: &FOp) -> bool {
                 }
                 FOp::ReadTex(..) => {
                     let k = tex_kind_of(&path.trim_end_matches(".lz").trim_end_matches(".cmp").to_string()).unwrap_or(c20::Kind::Ctpk);
-                    type TexMap = std::collections::BTreeMap<String, (usize, usize, Vec<u8>)>;
-                    let to_map = |v: Vec<Texture>| -> TexMap { v.into_iter().map(|t| (t.filename.clone(), (t.width, t.height, t.pixel_data))).collect() };
+                    // key -> (the texture's own filename field, width, height, pixels)
+                    type TexMap = std::collections::BTreeMap<String, (String, usize, usize, Vec<u8>)>;
+                    let to_map = |v: Vec<Texture>| -> TexMap { v.into_iter().map(|t| (t.filename.clone(), (t.filename.clone(), t.width, t.height, t.pixel_data))).collect() };
                     let r: Option<Result<TexMap, String>> = c.lib(&what, || match k {
-                        c20::Kind::Ctpk => w.fs.read_ctpk_textures(&path, localized).map(|m| m.into_iter().map(|(n, t)| (n, (t.width, t.height, t.pixel_data))).collect()).map_err(|e| e.to_string()),
-                        c20::Kind::Bch | c20::Kind::BchNew => w.fs.read_bch_textures(&path, localized).map(|m| m.into_iter().map(|(n, t)| (n, (t.width, t.height, t.pixel_data))).collect()).map_err(|e| e.to_string()),
-                        c20::Kind::Cgfx => w.fs.read_cgfx_textures(&path, localized).map(|m| m.into_iter().map(|(n, t)| (n, (t.width, t.height, t.pixel_data))).collect()).map_err(|e| e.to_string()),
-                        c20::Kind::Tpl => w.fs.read_tpl_textures(&path, localized).map(|v| v.into_iter().enumerate().map(|(i, t)| (format!("#{}", i), (t.width, t.height, t.pixel_data))).collect()).map_err(|e| e.to_string()),
+                        c20::Kind::Ctpk => w.fs.read_ctpk_textures(&path, localized).map(|m| m.into_iter().map(|(n, t)| (n, (t.filename.clone(), t.width, t.height, t.pixel_data))).collect()).map_err(|e| e.to_string()),
+                        c20::Kind::Bch | c20::Kind::BchNew => w.fs.read_bch_textures(&path, localized).map(|m| m.into_iter().map(|(n, t)| (n, (t.filename.clone(), t.width, t.height, t.pixel_data))).collect()).map_err(|e| e.to_string()),
+                        c20::Kind::Cgfx => w.fs.read_cgfx_textures(&path, localized).map(|m| m.into_iter().map(|(n, t)| (n, (t.filename.clone(), t.width, t.height, t.pixel_data))).collect()).map_err(|e| e.to_string()),
+                        c20::Kind::Tpl => w.fs.read_tpl_textures(&path, localized).map(|v| v.into_iter().enumerate().map(|(i, t)| (format!("#{}", i), (t.filename.clone(), t.width, t.height, t.pixel_data))).collect()).map_err(|e| e.to_string()),
                     });
                     match (r, &raw_expect) {
                         (None, _) => ok = false,
@@ -903,7 +904,7 @@ pub fn exec(c: &mut Case, w: &mut World, op: &FOp) -> bool {
                             match (direct, r) {
                                 (Some(Ok(v)), Ok(got)) => {
                                     c.sit("read_textures_conforming");
-                                    let exp: TexMap = if k == c20::Kind::Tpl { v.into_iter().enumerate().map(|(i, t)| (format!("#{}", i), (t.width, t.height, t.pixel_data))).collect() } else { to_map(v) };
+                                    let exp: TexMap = if k == c20::Kind::Tpl { v.into_iter().enumerate().map(|(i, t)| (format!("#{}", i), (t.filename.clone(), t.width, t.height, t.pixel_data))).collect() } else { to_map(v) };
                                     if got != exp {
                                         c.fail("typed", "read_textures_content", ctxs(&format!("textures differ from the stand-alone reader applied to read(p): {:?} vs {:?}", got.keys().collect::<Vec<_>>(), exp.keys().collect::<Vec<_>>()), w));
                                         ok = false;
